@@ -964,4 +964,143 @@ impl<'a> Gen<'a> {
         }
         J::Array(out)
     }
+
+    /// Statements aimed at what the optimiser looks at (C02): constant conditions, foldable
+    /// operations that fail, small inlinable functions with odd arguments, variables assigned
+    /// once vs twice, short-circuits around failing operands, discarded pure expressions.
+    fn opt_stmt(&mut self) -> Vec<J> {
+        let t = json!({"k": "bool", "b": true});
+        let f = json!({"k": "bool", "b": false});
+        let boom = |g: &mut Gen| -> J {
+            match g.rng.below(7) {
+                5 => json!({"k": "neg", "e": strlit("ab")}),
+                6 => json!({"k": "inv", "e": strlit("")}),
+                0 => bin("//", int(1), int(0)),
+                1 => bin("%", int(5), int(0)),
+                2 => json!({"k": "index", "e": {"k": "list", "items": [int(1)]}, "i": int(3)}),
+                3 => bin("+", int(1), strlit("a")),
+                _ => json!({"k": "index", "e": {"k": "dict", "keys": [strlit("a")], "vals": [int(1)]}, "i": strlit("zz")}),
+            }
+        };
+        match self.rng.below(12) {
+            0 => {
+                let b = boom(self);
+                vec![json!({"k": "if", "c": f, "then": [emit(b)], "else": [emit(int(1))]})]
+            }
+            1 => {
+                let b = boom(self);
+                let n = self.fresh("f");
+                // never called: the failing constant expression must not surface
+                vec![json!({"k": "def", "name": n, "params": [], "body": [{"k": "return", "e": b}]}), emit(int(2))]
+            }
+            2 => {
+                let b = boom(self);
+                let n = self.fresh("f");
+                vec![json!({"k": "def", "name": n, "params": [], "body": [{"k": "return", "e": b}]}),
+                     emit(int(3)), emit(call(var(&n), vec![]))]
+            }
+            3 => {
+                let b = boom(self);
+                let op = self.pick(&["and", "or"]);
+                let l = if op == "and" { f.clone() } else { t.clone() };
+                vec![emit(json!({"k": op, "l": l, "r": b}))]
+            }
+            4 => {
+                let b = boom(self);
+                let op = self.pick(&["and", "or"]);
+                let l = if op == "and" { t.clone() } else { f.clone() };
+                vec![emit(int(4)), emit(json!({"k": op, "l": l, "r": b}))]
+            }
+            5 => {
+                // inlinable identity-like function with a possibly-unassigned argument
+                let h = self.fresh("f");
+                let o = self.fresh("f");
+                let a = self.fresh("p");
+                let c = self.fresh("p");
+                let y = self.fresh("v");
+                vec![json!({"k": "def", "name": h, "params": [param(&a, "normal", absent())], "body": [{"k": "return", "e": var(&a)}]}),
+                     json!({"k": "def", "name": o, "params": [param(&c, "normal", absent())], "body": [
+                        {"k": "if", "c": var(&c), "then": [{"k": "assign", "tg": {"k": "var", "n": y}, "e": int(1)}], "else": []},
+                        {"k": "return", "e": call(var(&h), vec![var(&y)])}]}),
+                     emit(call(var(&o), vec![t.clone()])),
+                     emit(call(var(&o), vec![if self.rng.chance(1, 2) { f.clone() } else { t.clone() }]))]
+            }
+            6 => {
+                // module variable assigned once vs twice, read from a function
+                let v = self.fresh("v");
+                let g = self.fresh("f");
+                let mut out = vec![assign(&v, int(self.small_int()))];
+                out.push(json!({"k": "def", "name": g, "params": [], "body": [{"k": "return", "e": bin("+", var(&v), int(1))}]}));
+                out.push(emit(call(var(&g), vec![])));
+                if self.rng.chance(1, 2) {
+                    out.push(assign(&v, strlit("s")));
+                    out.push(emit(call(var(&g), vec![])));
+                }
+                self.declare(&v, Ty::Any);
+                out
+            }
+            7 => {
+                // type(x) == "..." and len of constants
+                let x = self.any_sized(1);
+                let tn = self.pick(&["int", "string", "list", "dict", "tuple"]);
+                vec![emit(bin("==", callf("type", vec![x.clone()]), strlit(tn))), emit(callf("len", vec![x]))]
+            }
+            8 => {
+                // loop over empty literal; discarded pure expressions with effects inside
+                let i = self.fresh("i");
+                let l = self.vars_of(|t| *t == Ty::ListInt);
+                let mut out = vec![json!({"k": "for", "tg": {"k": "var", "n": i}, "it": {"k": "list", "items": []}, "body": [emit(int(9))]})];
+                if !l.is_empty() {
+                    let v = self.pick(&l);
+                    out.push(json!({"k": "expr", "e": {"k": "list", "items": [mcall(var(&v.name), "append", vec![int(5)]), int(1)]}}));
+                    out.push(json!({"k": "expr", "e": {"k": "tuple", "items": [int(1), mcall(var(&v.name), "append", vec![int(6)])]}}));
+                    out.push(emit(var(&v.name)));
+                }
+                out
+            }
+            9 => {
+                // constant arithmetic / string / list folding
+                let e = match self.rng.below(5) {
+                    0 => bin("*", strlit("ab"), int(self.pick(&[0i64, 1, 3, -1]))),
+                    1 => bin("+", json!({"k": "list", "items": [int(1)]}), json!({"k": "list", "items": [int(2), int(3)]})),
+                    2 => json!({"k": "slice", "e": strlit("abcdef"), "lo": int(1), "hi": int(-1), "st": int(2)}),
+                    3 => mcall(strlit("a,b"), "split", vec![strlit(",")]),
+                    _ => bin("in", int(2), json!({"k": "list", "items": [int(1), int(2)]})),
+                };
+                vec![emit(e)]
+            }
+            10 => {
+                // small function called with constants and with locals, twice (inline + not)
+                let g = self.fresh("f");
+                let a = self.fresh("p");
+                let b = self.fresh("p");
+                let body = bin(self.pick(&["+", "-", "*", "//", "%"]), var(&a), var(&b));
+                vec![json!({"k": "def", "name": g, "params": [param(&a, "normal", absent()), param(&b, "normal", int(2))], "body": [{"k": "return", "e": body}]}),
+                     emit(call(var(&g), vec![int(self.small_int())])),
+                     emit(call(var(&g), vec![int(self.small_int()), int(self.pick(&[0i64, 1, 3]))]))]
+            }
+            _ => self.stmt(2),
+        }
+    }
+
+    pub fn module_opt(&mut self, nstmts: usize, wrap: bool) -> J {
+        let mut gen_block = |g: &mut Gen| -> Vec<J> {
+            let mut out = Vec::new();
+            for _ in 0..nstmts {
+                let s = if g.rng.chance(1, 2) { g.opt_stmt() } else { g.stmt(2) };
+                out.extend(s);
+            }
+            out
+        };
+        if wrap {
+            self.scopes.push(vec![]);
+            self.in_def += 1;
+            let body = gen_block(self);
+            self.in_def -= 1;
+            self.scopes.pop();
+            json!([{"k": "def", "name": "main", "params": [], "body": body}, {"k": "expr", "e": call(var("main"), vec![])}])
+        } else {
+            J::Array(gen_block(self))
+        }
+    }
 }
